@@ -426,8 +426,9 @@ fn check_doc(d: &Automerge, info: &DocInfo, rep: &Report) -> Result<(), Violatio
     let mut scratch = d.clone();
     let extra = d.get_changes(&[]).len().saturating_sub(info.base_hashes.len());
     let with_autocommit = rep.tier == "thorough" || extra <= 1;
-    for th in THEMES {
-        for op in crate::alphabet::theme(th).iter() {
+    let menu: Vec<&Op> = THEMES.iter().flat_map(|th| crate::alphabet::theme(th).iter()).chain(EXTRA_CALLS.iter()).collect();
+    {
+        for op in menu {
             let mut want = pre.clone();
             let verdict = spec(&mut want, op, enc);
             // (a) Automerge::transaction
@@ -556,6 +557,31 @@ fn check_doc(d: &Automerge, info: &DocInfo, rep: &Report) -> Result<(), Violatio
     let _ = Pos::Start;
     Ok(())
 }
+
+/// Calls that are in no theme (they would enlarge every history explorer) but belong to the
+/// sequential specification: scalars of every kind, in particular null, put over keys and
+/// positions that hold nested objects, counters and plain scalars.
+static EXTRA_CALLS: &[Op] = &[
+    Op::Put(Role::Root, Key::K("m"), Val::Null),
+    Op::Put(Role::Root, Key::K("l"), Val::Null),
+    Op::Put(Role::Root, Key::K("t"), Val::Null),
+    Op::Put(Role::Root, Key::K("a"), Val::Null),
+    Op::Put(Role::Root, Key::K("c"), Val::Null),
+    Op::Put(Role::Root, Key::K("m"), Val::Int(0)),
+    Op::Put(Role::Root, Key::K("l"), Val::Str("")),
+    Op::Put(Role::M, Key::K("m"), Val::Null),
+    Op::Put(Role::M, Key::K("l"), Val::Null),
+    Op::Put(Role::L, Key::I(Pos::Start), Val::Null),
+    Op::Put(Role::L, Key::I(Pos::Last), Val::Null),
+    Op::Ins(Role::L, Pos::Start, Val::Null),
+    Op::Put(Role::ML, Key::I(Pos::Last), Val::Null),
+    Op::Put(Role::Root, Key::K("a"), Val::Uint(u64::MAX)),
+    Op::Put(Role::Root, Key::K("a"), Val::F64(-0.5)),
+    Op::Put(Role::Root, Key::K("a"), Val::Ts(-1)),
+    Op::Put(Role::Root, Key::K("a"), Val::Bool(false)),
+    Op::Put(Role::Root, Key::K("a"), Val::Bytes(&[0, 255])),
+    Op::Put(Role::L, Key::I(Pos::Start), Val::Bool(false)),
+];
 
 pub fn run(args: &Args) -> i32 {
     run_pool(
